@@ -168,6 +168,24 @@ def campaign(c):
         if any(x.startswith(('panic', 'DIED')) for x in res):
             c.violation('total:panic:sequence:' + cls, 'a method sequence panicked: %s' % req[:300], dict(req=req[:3000]))
         c.case(('seq', i), dict(kind='method-sequence', req=req[:200]) if i % 20 == 0 else None)
+    # boundary values on an object that already has state: every method of a class after every method of that class, each integer
+    # parameter of the second call at each boundary value of its type (a counter that is fine from a fresh object may not be
+    # after a step)
+    for cls in CTOR:
+        ms = lib.methods[cls]
+        def mbase(m): return ['%s=%s' % (a['name'], base_arg(m, a)) for a in m['args'] if a['kind'] == 'pos'] + (['-=str:616263'] if m['collect_type'] == 'Str' else [])
+        for m1 in ms:
+            for m2 in ms:
+                for a in m2['args']:
+                    t = decl_type(a)[0]
+                    if t not in ('U8', 'U16', 'U32', 'U64'): continue
+                    for v in BOUND[t]:
+                        args2 = [x for x in mbase(m2) if not x.startswith(a['name'] + '=')] + ['%s=%s' % (a['name'], v)]
+                        steps = [CTOR[cls], ['$0.' + m1['path'].split('.')[1]] + mbase(m1), ['$0.' + m2['path'].split('.')[1]] + args2]
+                        res, req = call_both(c, steps, 'boundary-after-step')
+                        if any(x.startswith(('panic', 'DIED')) for x in res):
+                            c.violation('total:panic:sequence:' + cls, '%s with %s=%s after %s panics' % (m2['path'], a['name'], v, m1['path']), dict(req=req[:3000]))
+        c.case(('boundary-after-step', cls), dict(kind='boundary-after-step', cls=cls))
     # (2) reference shapes
     for shape in REFSHAPES:
         src = (REF_PRELUDE + shape + '\n').encode()
